@@ -38,6 +38,7 @@ type c17Src struct {
 	extends string // cache name of the parent ("" = none)
 	doc     bool   // loaded from a document
 	tag     string
+	docKind int // which base document a document template is built from
 }
 
 var c17Sources = []c17Src{
@@ -50,9 +51,21 @@ var c17Sources = []c17Src{
 	{name: "plain", tag: "plain", content: "{{#if c}}yes{{else}}no{{/if}} {{#each L}}{{n}};{{/each}} {{v}}"},
 	// a second definition under the name of a derived template (overrides the other block)
 	{name: "c1", tag: "c1.v2", extends: "base", content: "{{extends \"base\"}}{{#block \"y\"}}C1Y2 {{v}}{{/block}}"},
+	// a second document template whose parts have the same names as d's but carry no placeholder where d has
+	// one (header) and one where d has none (footer): what the engine remembers about "word/header1.xml" of
+	// one template must not be applied to the other (seed C18-d1)
+	{name: "e", tag: "e.doc", doc: true, docKind: 1},
 }
 
-var c17Names = []string{"base", "c1", "c2", "g", "d", "plain", "missing"}
+var c17Names = []string{"base", "c1", "c2", "g", "d", "e", "plain", "missing"}
+
+func c17BaseDocE() *document.Document {
+	d := document.New()
+	d.AddParagraph("E {{v}}")
+	d.AddHeader(document.HeaderFooterTypeDefault, "static header")
+	d.AddFooter(document.HeaderFooterTypeDefault, "F {{v}}")
+	return d
+}
 
 func c17BaseDoc() *document.Document {
 	d := document.New()
@@ -293,28 +306,52 @@ func init() {
 		names[i] = o.name
 	}
 	seqx.Register(&seqx.Spec{Name: "C17", Ops: names, NoDeep: true, New: func(args json.RawMessage) seqx.Inst {
-		return &c17Inst{eng: document.NewTemplateEngine(), cache: map[string]*c17Version{}}
+		var a c17Args
+		json.Unmarshal(args, &a)
+		return &c17Inst{eng: document.NewTemplateEngine(), cache: map[string]*c17Version{}, recentN: a.Recent, narrow: a.Narrow}
 	}})
 	shard.Register("C17sched", c17SchedWorker)
 	register("C17", "model_checking", runC17)
 }
 
-type c17Inst struct {
-	kept   []c17Kept
-	eng    *document.TemplateEngine
-	cache  map[string]*c17Version // bookkeeping: which version each name holds
-	nextID int
-	lastNT bool
+// c17Args: Recent = how many of the most recent render calls are part of the state key.  Purity is the
+// property under test, so "a render does not change the state" cannot be what merges two histories: a
+// render that leaves something behind in the engine (a memo, a cached override table) only shows in the
+// NEXT render, and that one is executed only if the state after the first is not merged away
+// (seeds C17-d1, C17-d2, C18-d1).
+type c17Args struct {
+	Recent int `json:"recent"`
+	// Narrow: only the inheritance calls (two base versions, two children, grandchild; their renders; removal
+	// of the base) are enabled, explored deeper than the full alphabet
+	Narrow bool `json:"narrow"`
 }
 
-func (i *c17Inst) Enabled(op int) bool  { return true }
-func (i *c17Inst) Nontrivial() bool     { return i.lastNT }
+var c17NarrowOps = map[string]bool{"Load(base.v1)": true, "Load(base.v2)": true, "Load(c1)": true, "Load(c2)": true, "Load(g)": true,
+	"Render(base)": true, "Render(c1)": true, "Render(c2)": true, "Render(g)": true, "Remove(base)": true}
+
+type c17Inst struct {
+	recentN int
+	narrow  bool
+	recent  []string // names of the most recent render calls (at most recentN)
+	kept    []c17Kept
+	eng     *document.TemplateEngine
+	cache   map[string]*c17Version // bookkeeping: which version each name holds
+	nextID  int
+	lastNT  bool
+}
+
+func (i *c17Inst) Enabled(op int) bool   { return !i.narrow || c17NarrowOps[c17Ops[op].name] }
+func (i *c17Inst) Nontrivial() bool      { return i.lastNT }
 func (i *c17Inst) Deep() []rep.Violation { return nil }
 
 func c17Load(eng *document.TemplateEngine, s c17Src) error {
 	var err error
 	if s.doc {
-		_, err = eng.LoadTemplateFromDocument(s.name, c17BaseDoc())
+		if s.docKind == 1 {
+			_, err = eng.LoadTemplateFromDocument(s.name, c17BaseDocE())
+		} else {
+			_, err = eng.LoadTemplateFromDocument(s.name, c17BaseDoc())
+		}
 	} else {
 		_, err = eng.LoadTemplate(s.name, s.content)
 	}
@@ -512,6 +549,12 @@ func (i *c17Inst) apply1(op int) (string, []rep.Violation) {
 	}
 	got := c17RenderOn(i.eng, o.tn, data, isDoc)
 	again := c17RenderOn(i.eng, o.tn, data, isDoc)
+	if i.recentN > 0 && v != nil {
+		i.recent = append(i.recent, o.name)
+		if len(i.recent) > i.recentN {
+			i.recent = i.recent[len(i.recent)-i.recentN:]
+		}
+	}
 	want := c17Expected(v, o.tn, o.variant)
 	if got.doc != nil && isDoc {
 		i.kept = append(i.kept, c17Kept{doc: got.doc, sig: c17DocSig(got.doc), from: o.name})
@@ -568,7 +611,7 @@ func (i *c17Inst) Key() string {
 	for _, k := range i.kept {
 		kept += k.from + ";"
 	}
-	return strings.Join(ks, ";") + "|" + strings.Join(have, ",") + "|" + kept
+	return strings.Join(ks, ";") + "|" + strings.Join(have, ",") + "|" + kept + "|recent:" + strings.Join(i.recent, ">")
 }
 
 // ---- part C: schedules on one engine
@@ -600,7 +643,7 @@ type c17Scen struct {
 func ld(src int) c17Call     { return c17Call{Kind: "load", Src: src} }
 func rn(name string) c17Call { return c17Call{Kind: "render", Name: name} }
 func rm(name string) c17Call { return c17Call{Kind: "remove", Name: name} }
-func clr() c17Call            { return c17Call{Kind: "clear"} }
+func clr() c17Call           { return c17Call{Kind: "clear"} }
 func rv(name string, v int) c17Call {
 	return c17Call{Kind: "render", Name: name, Variant: v}
 }
@@ -883,7 +926,7 @@ func runC17(r *rep.Run) {
 		depth = 7
 		maxExec = 100000
 	}
-	r.Rule = "part S: BFS over histories of engine calls (8 loads incl. a reloaded base version, two children overriding the same block differently, a second definition under a child's name, a grandchild, a document template (header, footer, logo, image placeholder, table with a nested table, all with placeholders) and a plain template; Render of every name incl. a missing one; two removals; ClearCache) on one real TemplateEngine, deduplicated on the bookkeeping of which version each name holds and which versions it was bound to at load time; every Render in every reached state is compared with the render, on a fresh engine in a fresh process, after loading exactly the bound chain (differential oracle), rendered twice, and the deep dumps of data, template object and base document are compared before/after; part C: every schedule with <= 2 preemptions of 2-3 goroutines calling Load/Render/Remove/ClearCache on one engine (points at every lock operation and at every statement of every function that touches Template/TemplateBlock/TemplateEngine fields), result tuple must be produced by some sequential order of the same calls; part R: same bodies in a free-running -race build; non-trivial = a load, or a render of a present template / a scenario with a branching point"
+	r.Rule = "part S: BFS over histories of engine calls (8 loads incl. a reloaded base version, two children overriding the same block differently, a second definition under a child's name, a grandchild, a document template (header, footer, logo, image placeholder, table with a nested table, all with placeholders) and a plain template; Render of every name incl. a missing one; two removals; ClearCache) on one real TemplateEngine, deduplicated on the bookkeeping of which version each name holds, which versions it was bound to at load time, which earlier results are watched and which templates the most recent render calls named (a render is NOT assumed to leave the engine unchanged); every Render in every reached state is compared with the render, on a fresh engine in a fresh process, after loading exactly the bound chain (differential oracle), rendered twice, and the deep dumps of data, template object and base document are compared before/after; part C: every schedule with <= 2 preemptions of 2-3 goroutines calling Load/Render/Remove/ClearCache on one engine (points at every lock operation and at every statement of every function that touches Template/TemplateBlock/TemplateEngine fields), result tuple must be produced by some sequential order of the same calls; part R: same bodies in a free-running -race build; non-trivial = a load, or a render of a present template / a scenario with a branching point"
 	r.Bounds["depth"] = depth
 	r.Bounds["ops"] = len(c17Ops)
 	r.Bounds["preemption_bound"] = map[string]int{"statement-level points": 1, "lock operations and function entries": 2}
@@ -894,7 +937,19 @@ func runC17(r *rep.Run) {
 		"between two scheduling points a thread runs alone; unsynchronised accesses are looked for by the race detector only",
 	}
 	t0 := time.Now()
-	r.Merge(seqx.Search("C17", seqx.Opts{Depth: depth, Deadline: r.Deadline}))
+	recent := 1
+	if r.Tier == "thorough" {
+		recent = 2
+	}
+	r.Bounds["recent_renders_in_state_key"] = recent
+	r.Merge(seqx.Search("C17", seqx.Opts{Depth: depth, Deadline: r.Deadline, Args: c17Args{Recent: recent}}))
+	narrow := 7
+	if r.Tier == "thorough" {
+		narrow = 9
+	}
+	r.Bounds["narrow_depth"] = narrow
+	r.Bounds["narrow_alphabet"] = "Load of base.v1, base.v2, c1, c2, g; Render of base, c1, c2, g; Remove(base)"
+	r.Merge(seqx.Search("C17", seqx.Opts{Depth: narrow, Deadline: r.Deadline, Args: c17Args{Recent: recent, Narrow: true}}))
 	r.P.Add("part_S_ms", time.Since(t0).Milliseconds())
 	if r.OutOfTime() {
 		return
